@@ -73,7 +73,8 @@ def compile_ready(it):
         if not p.name.isalpha():
             return False
     for pr in it.preds:
-        if pr.strip() not in ['%s: Super' % t for t in tps] + ["%s: 'static" % t for t in tps]:
+        if pr.strip() not in ['%s: Super' % t for t in tps] + ["%s: 'static" % t for t in tps] and \
+                not re.fullmatch(r'(%s): my::\w+' % '|'.join(tps or ['-']), pr.strip()):
             return False
     for a in it.attrs:
         if a.kind == 'repr' and a.repr_[0] != 'idents':
